@@ -583,7 +583,8 @@ def oix_compare(exe, items):
     parse trees and compares (1) its op sequence with the projection of the real op log (file numbers mapped through the
     paths; a type the final state no longer shows is a wildcard), (2) the outline it determines with the real handler's.
     Returns (disagreements, stats)."""
-    stats = {"oix_workspaces": 0, "oix_noncore": 0, "oix_ops": 0, "oix_outline_files": 0}
+    stats = {"oix_workspaces": 0, "oix_noncore": 0, "oix_ops": 0, "oix_outline_files": 0,
+             "source_theorem_applicable": 0, "source_theorem_counts_agree": 0}
     lines, metas = [], []
     for ws, d, ca in items:
         if not isinstance(d, dict) or not d.get("oplog") and d.get("oplog") != []:
@@ -603,6 +604,12 @@ def oix_compare(exe, items):
         except Exception:
             bad.append(dict(base, kind="oix-model-crash", model=o[:300], observed=None))
             continue
+        # side condition of C18_outline_source_complete (single file, no include): registered vs source declaration counts
+        dc = r.get("decl_counts")
+        if dc is not None:
+            stats["source_theorem_applicable"] += 1
+            if dc[0] == dc[1]:
+                stats["source_theorem_counts_agree"] += 1
         # coreast file number -> real file id
         num2real = {}
         for k, path in enumerate(ca["files"]):
